@@ -20,7 +20,7 @@ FUNCTIONS = ["KnowledgeBase::new", "KnowledgeBase::add_rule", "KnowledgeBase::re
              "KnowledgeBase::clear", "KnowledgeBase::version"]
 NAMES = ["r1", "r2", "r3", "r4"]
 TIERS = {
-    "quick": [{"K": 5, "names": 3}],
+    "quick": [{"K": 5, "names": 4}],
     "thorough": [{"K": 7, "names": 3}, {"K": 6, "names": 4}],
 }
 ASSUMPTIONS = [
